@@ -170,6 +170,10 @@ func checkPageRank(c prCase) *vk.Failure {
 		return f
 	}
 	if f := vk.MustReturn("pagerank-sparse-panics", func() { sparse = network.PageRankSparse(g, d, tol) }); f != nil {
+		if n == 0 {
+			vk.Class("pagerank:empty-graph-sparse-panics") // asserted by the contract sub-check
+			return nil
+		}
 		return f
 	}
 	if n == 0 {
